@@ -156,10 +156,19 @@ def run_monitors(ctx, tool, cases, stats, do_shrink=True):
             if c["verdict"] == 3:
                 ctx.fail("monitor", "the driver could not interpret the loader's answer: %s" % c.get("err"), c)
                 continue
+            if c["verdict"] == 2:
+                # whatever the expression: the loader must answer with a value or an error (a panic kills the daemon)
+                ctx.fail("monitor", "the loader panics on schedule %r: %s" % (c.get("expr", ""), c.get("err", "")), c,
+                         cls={"class": "loader-panic", "cause": "unexplained"})
+                continue
             j, bad = monitor_expr(c)
             judged += 1 if j else 0
             for what, cls in bad:
                 ctx.fail("monitor", what, c, cls=cls)
+        elif c["kind"] == "sched":
+            if c["verdict"] == 2:
+                ctx.fail("monitor", "the loader panics on a schedule value: %s" % c.get("err", ""), c,
+                         cls={"class": "loader-panic", "cause": "unexplained"})
         elif c["kind"] == "seq":
             unsynced = [i for i, o in enumerate(c["ops"]) if not o.get("synced", True)]
             if unsynced:
